@@ -15,6 +15,7 @@ class C23(PtgCheck):
     prop_file = "theories/Properties/Properties_C23.v"
     theorems = ("C23_keys_injective", "C23_distinct_params_distinct_keys", "C23_unbounded_key_injective",
                 "C23_key_below_range_product", "C23_decode_make_key", "C23_key_print_names_instance",
+                "C23_key_print_any_header_permutation",
                 "C23_key_print_derived_parameter_refuted", "C23_key_print_header_order_refuted")
     mode = "keys"
     level_text = ("Theorems over the model of the generated make_key / key_print (PTG/PTGDefs.v, mirroring jdf_generate_hashfunction_for, "
@@ -31,7 +32,8 @@ class C23(PtgCheck):
                   "overflow in the bounds and Π ranges <= 2^64.")
     technique = "Coq proof (mixed-radix injectivity / inversion over the enumerated execution space) + differential run of the generated key functions"
     rule = ("parameter-space shapes (1-4 parameters; negative, expression, derived-local and parameter-dependent bounds; steps; all-negative "
-            "ranges; parameters defined by expressions; header order != definition order), few instances in huge bounding boxes (3-4 parameters, "
+            "ranges; parameters defined by expressions; header order != definition order; keysperm: 2-4 pure range parameters with different "
+            "sizes/lower bounds under a non-identity header permutation, all 6 orders of 3 parameters in the corpus), few instances in huge bounding boxes (3-4 parameters, "
             "steps 2^10..2^30, negative bounds, product of the leading ranges 2^31-+small / 2^32 / 2^40 / 2^62..2^63, total <= 2^64) "
             "plus the C01 DAG templates; "
             "non-trivial = a class with at least 2 instances; distinct = program text")
@@ -51,6 +53,10 @@ class C23(PtgCheck):
         kinds = ["31-", "31+", "32", "40", "63"]
         for i in range(6 if self.tier == "quick" else 60):
             p = jdfgen.gen_program(r, "keysbig", max_inst=200, big_target=kinds[i % 5] if i < 5 else None)
+            out.append("keys %s | %s" % (" ".join(self.draw_configs(r, 1)), jdfgen.to_case(p)))
+        # pure range parameters listed in the header in another order than they are defined
+        for i in range(5 if self.tier == "quick" else 50):
+            p = jdfgen.gen_program(r, "keysperm", max_inst=400)
             out.append("keys %s | %s" % (" ".join(self.draw_configs(r, 1)), jdfgen.to_case(p)))
         for i in range(6 if self.tier == "quick" else 40):
             p = jdfgen.gen_program(r)
@@ -99,51 +105,66 @@ class C23(PtgCheck):
             return "wf=1 " + per[0][2]
         return " || ".join("cfg=%s end=%s %s" % x for x in per)
 
-    def oracle(self, case, obs):
+    # severity of what can be wrong with one instance: the worst one of a case is reported, so that a
+    # registered finding in one class cannot hide something new in another
+    SEV = {"collision": 0, "keyprint-wrong": 1, "keyprint-header-order": 1, "run-failed": 2, "noobs": 2,
+           "keyprint-derived-param": 3, "keyprint-local-order": 4}
+
+    def key_failures(self, case, obs):
+        """list of (signature, message) for one case"""
         try:
             prog = jdfgen.parse_case(case.split("|", 1)[1])
         except Exception as ex:
-            return None if obs.startswith("<bad case") else "unparsable case: %s" % ex
+            return [] if obs.startswith("<bad case") else [("other", "unparsable case: %s" % ex)]
         if obs.startswith("<ptgpp-rejected") or obs.startswith("<generated-C") or obs.startswith("<link-failed"):
-            return None
+            return []
         if obs.startswith("<"):
-            return "no observation: " + obs[:120]
+            return [("noobs", "no observation: " + obs[:120])]
         cls = {c.name: c for c in prog.classes}
+        out = []
         for ch in ([obs] if obs.startswith("wf=1 ") else obs.split(" || ")):
             m = re.match(r"cfg=(\S+) end=(\S+) (.*)$", ch)
             end, body = (m.group(2), m.group(3)) if m else ("rc=0", ch[5:])
             if end != "rc=0":
-                return "run did not complete (%s): keys not observable" % end
+                out.append(("run-failed", "run did not complete (%s): keys not observable" % end))
             seen = {}
             for m2 in re.finditer(r"([A-Za-z_]\w*)\(([-0-9,]*)\)=(\d+):(\S+)", body):
                 name, ps, k, kp = m2.group(1), m2.group(2), int(m2.group(3)), m2.group(4)
                 inst = "%s(%s)" % (name, ps)
                 if (name, k) in seen and seen[(name, k)] != inst:
-                    return "collision: %s and %s have the same key %d" % (seen[(name, k)], inst, k)
+                    out.append(("collision", "collision: %s and %s have the same key %d" % (seen[(name, k)], inst, k)))
                 seen[(name, k)] = inst
                 if kp != inst:
                     c = cls.get(name)
                     why = "key_print of the key of %s says %s" % (inst, kp)
                     if c is not None and jdfgen.has_derived_param(c):
-                        return why + " [parameter defined by an expression]"
-                    if c is not None and jdfgen.header_permuted(c):
-                        return why + " [header order differs from definition order]"
-                    return why
-        return None
+                        out.append(("keyprint-derived-param", why + " [parameter defined by an expression]"))
+                    elif c is not None and jdfgen.header_permuted(c):
+                        hp = tuple(int(x) for x in ps.split(",")) if ps else ()
+                        local = inst_name(name, jdfgen.local_order_params(c, hp))
+                        if kp == local:
+                            # the registered finding: the right values, in definition order instead of header order
+                            out.append(("keyprint-local-order", why + " [the values in definition order, not header order]"))
+                        else:
+                            out.append(("keyprint-header-order", why + " [neither the header-order nor the definition-order "
+                                        "form %s of this instance: key and print disagree on the parameter order]" % local))
+                    else:
+                        out.append(("keyprint-wrong", why))
+        return out
+
+    def oracle(self, case, obs):
+        fs = self.key_failures(case, obs)
+        if not fs:
+            return None
+        fs.sort(key=lambda x: self.SEV.get(x[0], 2))
+        return fs[0][1]
 
     def signature(self, case, obs):
-        r = self.oracle(case, obs) or ""
-        if "collision" in r:
-            return "collision"
-        if "defined by an expression" in r:
-            return "keyprint-derived-param"
-        if "header order" in r:
-            return "keyprint-local-order"
-        if "key_print" in r:
-            return "keyprint-wrong"
-        if "did not complete" in r:
-            return "run-failed"
-        return "other"
+        fs = self.key_failures(case, obs)
+        if not fs:
+            return "other"
+        fs.sort(key=lambda x: self.SEV.get(x[0], 2))
+        return fs[0][0]
 
     def shrink(self, case, impl_line):
         """keep only the class the oracle names, when it has no task dependencies, and re-run"""
